@@ -110,6 +110,8 @@ struct Tr : public NB, public sigc::trackable
   long cm2cr(const Obj& a, Obj& b) const { return body(a, b); }
   long cm2cc(const Obj& a, const Obj& b) const { return body(a, b); }
 };
+// a trackable-derived object that is bound by value (the copy stored in the functor is what gets tracked)
+struct TrVal : public sigc::trackable { long pad; explicit TrVal(long p = 0) : pad(p) {} };
 // a trackable reached through a virtual base (limit_reference must visit the right sub-object)
 struct TrVirtBase : virtual public sigc::trackable { long pad = 7; };
 
@@ -132,10 +134,16 @@ void log_one(Weighted& w, A&& a)
     if (!found) g_log += "c";
     w.add(0);
   }
-  else
+  else if constexpr (std::is_convertible_v<D, long>)
   {
     g_log += std::to_string((long)a) + ":c";
     w.add((long)a);
+  }
+  else
+  {
+    // a functor or a slot handed over as a bound value: the target does not call it
+    g_log += "0:c";
+    w.add(0);
   }
 }
 
@@ -297,6 +305,17 @@ static void fixed_signal_connect()
     out += " F:x=" + std::to_string(x) + ",s=" + s + ",r=" + std::to_string(r);
     c.disconnect();
     out += ",size=" + std::to_string(g.size());
+  }
+  {
+    // bind_return with std::ref / std::cref returns the very object, not a copy
+    Obj o(5); const Obj co(6);
+    auto f1 = sigc::bind_return(Catcher{1}, std::ref(o));
+    auto f2 = sigc::bind_return(Catcher{1}, std::cref(co));
+    auto h1 = sigc::hide(sigc::bind_return(Catcher{1}, std::ref(o)));
+    auto h2 = sigc::hide(sigc::bind_return(Catcher{1}, std::cref(co)));
+    auto addr = [](auto&& x) -> const void* { return static_cast<const void*>(&x); };   // also accepts a copy (prvalue)
+    out += " R:ref=" + std::to_string(addr(f1()) == &o) + ",cref=" + std::to_string(addr(f2()) == &co)
+         + ",hideref=" + std::to_string(addr(h1(7)) == &o) + ",hidecref=" + std::to_string(addr(h2(7)) == &co);
   }
   printf("fixed sigconn %s\n", out.c_str());
   fflush(stdout);
